@@ -24,6 +24,8 @@ def check(run):
     run.regenerate()
     run.lean_props(common.modules_for("C13"))
     from .. import glue_modes
+    from .. import glue_diff
+    run.attempt("corr:glue_diff.algebra", glue_diff.corr, run, quick, parts=("algebra",))   # generated conjugate / real / imag loops vs the real methods, bit for bit
     run.attempt("corr:glue_modes.corr", glue_modes.corr, run, quick)   # Lean model of Modes (constructor, layout, dispatch, conj pairing, product terms, copies) vs the real class
     rng = run.rng
     Rs = [helpers.random_rotor(rng) for _ in range(3)] + [(1.0, 0.0, 0.0, 0.0), (0.0, 0.6, 0.8, 0.0)]
